@@ -183,6 +183,8 @@ def run(analysis: Analysis, tier: str) -> RuleResult:
             res.add("C04-L:" + rule, *a, **kw)
 
     c03.header_rules(analysis, _L)
+    # the "unusable version falls back to 1.4" clause and the version payload rule rest on is_version's floor test
+    c03.is_version_floor(analysis, res, "C04-L:C03-R3b")
     specs = specs_for(analysis, tier)
     recs = common.pmap(analysis, pathsum.logic_records, specs)
     res.contexts = ["/".join(s) for s in specs]
